@@ -356,7 +356,7 @@ def export_cause(src, ref, out, i):
         return 'heading-text'
     if re.search(rb'(width|height)[=:]"?\d', near):
         return 'image-dimension'
-    if re.search(rb'<abbr|\\ac\{|\\gls\{|\\acrshort|\\acrfull', ctx) and b'[>' in src:
+    if re.search(rb'<abbr|class="glossary"|\\ac\{|\\gls\{|\\acrshort|\\acrfull', ctx) and (b'[>' in src or b'[?' in src):
         # the search for abbreviations splits text tokens in the tree; the next export searches the already split tokens
         return 'abbreviation-search'
     if re.search(rb'\[[>?^#]', src) and (ref[i:i + 1] in (b'>', b'?', b'^', b'#') or out[i:i + 1] in (b'>', b'?', b'^', b'#')):
